@@ -639,6 +639,7 @@ pub fn generate(prop: &str, family: &str, seed: u64) -> RunDesc {
         "dir-b" => crate::dir::b(prop, seed),
         "dir-t14" => crate::dir::t14(prop, seed),
         "dir-t15" => crate::dir::t15(prop, seed),
+        "dir-t16" => crate::dir::t16(prop, seed),
         "dir-w" => crate::dir::w(prop, seed),
         "dir-c" => crate::dir::c(prop, seed),
         "client" => crate::fam_client::gen(prop, seed),
@@ -647,6 +648,7 @@ pub fn generate(prop: &str, family: &str, seed: u64) -> RunDesc {
         "chain" => crate::fam_chain::gen(prop, seed, false),
         "chain-stack" => crate::fam_chain::gen(prop, seed, true),
         "chain-weak" => crate::fam_chain::gen_weak(prop, seed),
+        "chain-mid" => crate::fam_chain::gen_mid(prop, seed),
         "agesweep" => crate::fam_sweep::gen(prop, seed),
         _ => gen_interp_run(prop, family, seed, Profile::Mixed),
     };
